@@ -19,8 +19,12 @@
    (c) respects real-time order: for every cut h = h1 ++ h2 of the history S can
        be cut as S1 ++ S2 such that S1 contains every operation completed in h1
        and only operations invoked in h1 - so an operation whose response is in
-       h1 precedes in S every operation invoked in h2 ([classic_rt_order]). *)
-From Coq Require Import List Arith Lia.
+       h1 precedes in S every operation invoked in h2 ([classic_rt_order]).
+
+   Part 3: windows of a history without anti-operations, for a property Phi of
+   the abstract state ([after_op], [window_one], [seq_between]); instantiated
+   for sets in SyncMap/SetRT.v. *)
+From Coq Require Import List Arith Lia Bool.
 Import ListNotations.
 From Typ Require Import Lib.Lin.
 
@@ -317,3 +321,316 @@ Proof.
   rewrite app_length in By. cbn [length] in By. lia.
 Qed.
 End Classic.
+
+(* ================================================================== *)
+(* Part 3: windows of a history without "anti-operations"              *)
+(* ================================================================== *)
+(* A property Phi of the abstract state (e.g. "v is a member"), operations that
+   establish it ([isop], e.g. Add v: they report success only if Phi did not
+   hold) and anti-operations that may destroy it ([isanti], e.g. Remove v).
+   Over a stretch of history in which no anti-operation is invoked, starting
+   from a possibility in which none is pending unlinearized:
+   - Phi, once true, stays true, and every call linearized in the stretch after
+     an operation has returned sees it ([after_op]);
+   - at most one operation invoked and answered in the stretch reports success
+     ([window_one]).
+   And in a legal sequential history an operation that reports success is
+   separated from any earlier operation by a successful anti-operation
+   ([seq_between]). *)
+Local Open Scope bool_scope.
+Section Window.
+Context {Call Res St : Type}.
+Variable spec : St -> Call -> St * Res.
+Variable Phi : St -> Prop.
+Variable Phi_dec : forall a, {Phi a} + {~ Phi a}.
+Variables (isop isanti : Call -> bool) (succ : Res -> bool).
+Hypothesis K1 : forall a c, isanti c = false -> Phi a -> Phi (fst (spec a c)).
+Hypothesis K2 : forall a c, isop c = true -> Phi (fst (spec a c)).
+Hypothesis K3 : forall a c, isop c = true -> Phi a -> succ (snd (spec a c)) = false.
+Hypothesis K4 : forall a c, Phi a -> ~ Phi (fst (spec a c)) -> isanti c = true /\ succ (snd (spec a c)) = true.
+Notation hev := (@hevent Call Res).
+Notation pendT := (@pend Call Res).
+
+(* the call pending for thread t after history h (oldest event first) *)
+Definition pend_call (h : list hev) (t : nat) : option Call :=
+  match last_ev (rev h) t with Some (HInv _ c) => Some c | _ => None end.
+
+(* no anti-operation is pending with its marker still to come / is invoked in w *)
+Definition nounm (P : pendT) : Prop := forall t c, P t = Some (c, None) -> isanti c = false.
+Definition anti_free (w : list hev) : Prop := forall t c, In (HInv t c) w -> isanti c = false.
+
+Lemma nounm_upd_none (P : pendT) t : nounm P -> nounm (upd P t None).
+Proof. intros H t0 c0. unfold upd. destruct (Nat.eq_dec t0 t); [discriminate|apply H]. Qed.
+Lemma nounm_upd_inv (P : pendT) t c : nounm P -> isanti c = false -> nounm (upd P t (Some (c, None))).
+Proof. intros H Hc t0 c0. unfold upd. destruct (Nat.eq_dec t0 t); [intros [= <-]; exact Hc|apply H]. Qed.
+
+Lemma nounm_start a0 h0 s0 P0 : possF spec a0 no_pend (rev h0) s0 P0 ->
+  (forall t c, pend_call h0 t = Some c -> isanti c = false) -> nounm P0.
+Proof.
+  intros H0 Hpend t c Ht. pose proof (possF_pend _ _ _ _ _ _ H0 t) as X. specialize (Hpend t). unfold pend_call in Hpend.
+  destruct (last_ev (rev h0) t) as [[? c0|? ?]|].
+  - destruct X as [d Hd]. rewrite Ht in Hd. injection Hd as <- _. exact (Hpend c eq_refl).
+  - rewrite Ht in X. discriminate.
+  - destruct (X c None Ht) as [d' Hd']. discriminate.
+Qed.
+
+Lemma wkeep s1 (P1 : pendT) w s2 (P2 : pendT) :
+  possF spec s1 P1 w s2 P2 -> anti_free w -> nounm P1 ->
+  nounm P2 /\ (Phi s1 -> Phi s2) /\
+  forall t c r, P2 t = Some (c, Some r) ->
+    ((forall c', ~ In (HInv t c') w) /\ P1 t = Some (c, Some r)) \/
+    ((exists sm, r = snd (spec sm c) /\ (Phi s1 -> Phi sm)) /\ (isop c = true -> Phi s2)).
+Proof.
+  induction 1 as [|h a P t c H IH HP|h a P t c H IH HP|h a P t c r H IH HP]; intros Hw Hn.
+  - split; [exact Hn|]. split; [auto|]. intros t c r Ht. left. split; [intros c' []|exact Ht].
+  - destruct IH as (I1 & I2 & I3); [intros t0 c0 Hi; apply (Hw t0 c0); right; exact Hi|exact Hn|].
+    split; [|split; [exact I2|]].
+    + intros t0 c0. unfold upd. destruct (Nat.eq_dec t0 t) as [->|N]; [|apply I1].
+      intros [= <-]. apply (Hw t c). left. reflexivity.
+    + intros t0 c0 r0. unfold upd. destruct (Nat.eq_dec t0 t) as [->|N]; [discriminate|]. intros Ht.
+      destruct (I3 t0 c0 r0 Ht) as [[A B]|B]; [left|right; exact B].
+      split; [|exact B]. intros c' [[= E _]|Hi]; [congruence|exact (A c' Hi)].
+  - destruct (IH Hw Hn) as (I1 & I2 & I3).
+    assert (Hnr : isanti c = false) by (apply (I1 t c HP)).
+    split; [|split].
+    + intros t0 c0. unfold upd. destruct (Nat.eq_dec t0 t) as [->|N]; [discriminate|apply I1].
+    + intros Hv. apply K1; auto.
+    + intros t0 c0 r0. unfold upd. destruct (Nat.eq_dec t0 t) as [->|N].
+      * intros [= <- <-]. right. split; [exists a; auto|]. apply K2.
+      * intros Ht. destruct (I3 t0 c0 r0 Ht) as [A|[A B]]; [left; exact A|right].
+        split; [exact A|]. intros Ha. apply K1; auto.
+  - destruct IH as (I1 & I2 & I3); [intros t0 c0 Hi; apply (Hw t0 c0); right; exact Hi|exact Hn|].
+    split; [|split; [exact I2|]].
+    + intros t0 c0. unfold upd. destruct (Nat.eq_dec t0 t) as [->|N]; [discriminate|apply I1].
+    + intros t0 c0 r0. unfold upd. destruct (Nat.eq_dec t0 t) as [->|N]; [discriminate|]. intros Ht.
+      destruct (I3 t0 c0 r0 Ht) as [[A B]|B]; [left|right; exact B].
+      split; [|exact B]. intros c' [Hi|Hi]; [discriminate|exact (A c' Hi)].
+Qed.
+
+(* History (oldest first): ... c1 (an operation) invoked by t1 ... it returns
+   r1 ... c2 invoked by t2 ... it returns r2 ...; hA / hB contain no event of
+   t1 / t2. If no anti-operation is pending when c1 is invoked and none is
+   invoked before c2 returns, r2 is the result of c2 on a state with Phi. *)
+Theorem after_op a0 (h0 hA h2 hB h4 : list hev) t1 c1 r1 t2 c2 r2 :
+  linearizable spec a0 (h0 ++ [HInv t1 c1] ++ hA ++ [HRes t1 r1] ++ h2 ++ [HInv t2 c2] ++ hB ++ [HRes t2 r2] ++ h4) ->
+  isop c1 = true -> isanti c1 = false -> no_ev t1 hA -> no_ev t2 hB -> isanti c2 = false ->
+  (forall t c, pend_call h0 t = Some c -> isanti c = false) ->
+  (forall t c, In (HInv t c) (hA ++ h2 ++ hB) -> isanti c = false) ->
+  exists sm, Phi sm /\ r2 = snd (spec sm c2).
+Proof.
+  intros (s & P & Hp) Hop Hadd_nr HnA HnB Hc2 Hpend Hwin. apply poss_possF in Hp.
+  repeat rewrite rev_app_distr in Hp. cbn [rev app] in Hp.
+  apply possF_app in Hp as (s0 & P0 & H0 & Hp).
+  apply possF_snoc in Hp as (s0' & P0' & L0 & Hn0 & Hp).
+  apply possF_app in Hp as (sa & Pa & HA & Hp).
+  apply possF_snoc in Hp as (sa' & Pa' & La & (c1' & Hc1 & Hp)).
+  apply possF_app in Hp as (sb & Pb & H2 & Hp).
+  apply possF_snoc in Hp as (sb' & Pb' & Lb & Hnb & Hp).
+  apply possF_app in Hp as (sc & Pc & HB & Hp).
+  apply possF_snoc in Hp as (sc' & Pc' & Lc & (c2' & Hc2' & _)).
+  assert (Hnil : anti_free []) by (intros t c []).
+  assert (HwA : anti_free ([] ++ rev hA)).
+  { intros t c Hi. cbn in Hi. apply in_rev in Hi. apply (Hwin t c). apply in_or_app. auto. }
+  assert (Hw2 : anti_free ([] ++ rev h2)).
+  { intros t c Hi. cbn in Hi. apply in_rev in Hi. apply (Hwin t c). apply in_or_app. right. apply in_or_app. auto. }
+  assert (HwB : anti_free ([] ++ rev hB)).
+  { intros t c Hi. cbn in Hi. apply in_rev in Hi. apply (Hwin t c). apply in_or_app. right. apply in_or_app. auto. }
+  pose proof (nounm_start _ _ _ _ H0 Hpend) as N0.
+  destruct (wkeep _ _ _ _ _ L0 Hnil N0) as (N0' & _ & _).
+  pose proof (nounm_upd_inv P0' t1 c1 N0' Hadd_nr) as Na.
+  pose proof (possF_trans _ _ _ _ _ _ _ _ _ HA La) as SA.
+  destruct (wkeep _ _ _ _ _ SA HwA Na) as (Na' & _ & Ia).
+  assert (Ec1 : c1' = c1).
+  { pose proof (possF_pend _ _ _ _ _ _ SA t1) as X. cbn [app] in X. rewrite (last_ev_none _ _ (no_ev_rev _ _ HnA)) in X.
+    destruct (X c1' (Some r1) Hc1) as [d' Hd']. rewrite upd_same in Hd'. congruence. }
+  subst c1'.
+  assert (Va : Phi sa').
+  { destruct (Ia t1 c1 r1 Hc1) as [[_ B]|[_ B]]; [rewrite upd_same in B; discriminate|exact (B Hop)]. }
+  pose proof (nounm_upd_none Pa' t1 Na') as Nb.
+  pose proof (possF_trans _ _ _ _ _ _ _ _ _ H2 Lb) as S2.
+  destruct (wkeep _ _ _ _ _ S2 Hw2 Nb) as (Nb' & Vb & _).
+  pose proof (nounm_upd_inv Pb' t2 c2 Nb' Hc2) as Nc.
+  pose proof (possF_trans _ _ _ _ _ _ _ _ _ HB Lc) as SB.
+  destruct (wkeep _ _ _ _ _ SB HwB Nc) as (_ & _ & Ic).
+  assert (Ec2 : c2' = c2).
+  { pose proof (possF_pend _ _ _ _ _ _ SB t2) as X. cbn [app] in X. rewrite (last_ev_none _ _ (no_ev_rev _ _ HnB)) in X.
+    destruct (X c2' (Some r2) Hc2') as [d' Hd']. rewrite upd_same in Hd'. congruence. }
+  subst c2'.
+  destruct (Ic t2 c2 r2 Hc2') as [[_ B]|[(sm & Er & Vm) _]]; [rewrite upd_same in B; discriminate|].
+  exists sm. split; [apply Vm, Vb, Va|exact Er].
+Qed.
+
+(* ---- at most one successful operation per window ---- *)
+(* the number of responses in w (most recent event first) that report success
+   and answer an operation invoked within w *)
+Fixpoint cnt_succ (w : list hev) : nat :=
+  match w with
+  | [] => 0
+  | HInv _ _ :: w' => cnt_succ w'
+  | HRes t r :: w' =>
+      (if succ r && match last_ev w' t with Some (HInv _ c) => isop c | _ => false end then 1 else 0) + cnt_succ w'
+  end.
+
+Lemma last_ev_in (w : list hev) t e : last_ev w t = Some e -> In e w /\ ev_thread e = t.
+Proof.
+  induction w as [|e0 w IH]; cbn; [discriminate|].
+  destruct (Nat.eq_dec (ev_thread e0) t) as [E|N]; [intros [= <-]; auto|]. intros H. destruct (IH H). auto.
+Qed.
+
+(* thread t has a pending operation, invoked in w, whose marker reported success *)
+Definition PM (w : list hev) (P : pendT) (t : nat) : Prop :=
+  exists c r, P t = Some (c, Some r) /\ isop c = true /\ succ r = true /\ exists c', In (HInv t c') w.
+
+Lemma wcount s1 (P1 : pendT) w s2 (P2 : pendT) :
+  possF spec s1 P1 w s2 P2 -> anti_free w -> nounm P1 ->
+  nounm P2 /\ cnt_succ w <= 1 /\
+  (~ Phi s2 -> cnt_succ w = 0 /\ forall t, ~ PM w P2 t) /\
+  (cnt_succ w = 1 -> forall t, ~ PM w P2 t) /\
+  (forall t t', PM w P2 t -> PM w P2 t' -> t = t').
+Proof.
+  induction 1 as [|h a P t c H IH HP|h a P t c H IH HP|h a P t c r H IH HP]; intros Hw Hn.
+  - split; [exact Hn|]. split; [cbn; lia|].
+    assert (X : forall t, ~ PM [] P1 t) by (intros t (c & r & _ & _ & _ & c' & [])).
+    split; [intros _; split; [reflexivity|exact X]|]. split; [intros _; exact X|]. intros t t' A. destruct (X t A).
+  - (* invocation *)
+    destruct IH as (I0 & IA & IB & IC & ID); [intros t0 c0 Hi; apply (Hw t0 c0); right; exact Hi|exact Hn|].
+    assert (Hsub : forall t0, PM (HInv t c :: h) (upd P t (Some (c, None))) t0 -> PM h P t0).
+    { intros t0 (c0 & r0 & A1 & A2 & A3 & c' & A4). unfold upd in A1. destruct (Nat.eq_dec t0 t) as [->|N]; [discriminate|].
+      exists c0, r0. split; [exact A1|]. split; [exact A2|]. split; [exact A3|]. exists c'.
+      destruct A4 as [[= E _]|A4]; [congruence|exact A4]. }
+    split; [apply nounm_upd_inv; [exact I0|apply (Hw t c); left; reflexivity]|].
+    split; [exact IA|]. split; [intros Hv; destruct (IB Hv) as [B1 B2]; split; [exact B1|intros t0 X; exact (B2 t0 (Hsub t0 X))]|].
+    split; [intros E t0 X; exact (IC E t0 (Hsub t0 X))|]. intros t0 t0' X X'. exact (ID t0 t0' (Hsub t0 X) (Hsub t0' X')).
+  - (* marker *)
+    destruct (IH Hw Hn) as (I0 & IA & IB & IC & ID).
+    assert (Hnr : isanti c = false) by (apply (I0 t c HP)).
+    assert (Hoth : forall t0, t0 <> t -> PM h (upd P t (Some (c, Some (snd (spec a c))))) t0 -> PM h P t0).
+    { intros t0 N (c0 & r0 & A1 & A). unfold upd in A1. destruct (Nat.eq_dec t0 t); [congruence|]. exists c0, r0. auto. }
+    split; [intros t0 c0; unfold upd; destruct (Nat.eq_dec t0 t); [discriminate|apply I0]|].
+    split; [exact IA|].
+    destruct (Phi_dec a) as [Hv|Hv].
+    + (* Phi holds before the marker: an operation marked now does not report success *)
+      assert (Hnot : ~ PM h (upd P t (Some (c, Some (snd (spec a c))))) t).
+      { intros (c0 & r0 & A1 & A2 & A3 & _). rewrite upd_same in A1. injection A1 as <- <-. rewrite (K3 a c A2 Hv) in A3. discriminate. }
+      assert (Hsub : forall t0, PM h (upd P t (Some (c, Some (snd (spec a c))))) t0 -> PM h P t0).
+      { intros t0 X. destruct (Nat.eq_dec t0 t) as [->|N]; [destruct (Hnot X)|exact (Hoth t0 N X)]. }
+      split; [intros Hv'; exfalso; apply Hv'; apply K1; auto|].
+      split; [intros E t0 X; exact (IC E t0 (Hsub t0 X))|]. intros t0 t0' X X'. exact (ID t0 t0' (Hsub t0 X) (Hsub t0' X')).
+    + (* Phi does not hold: nothing has succeeded in the window so far *)
+      destruct (IB Hv) as [B1 B2].
+      assert (Honly : forall t0, PM h (upd P t (Some (c, Some (snd (spec a c))))) t0 -> t0 = t).
+      { intros t0 X. destruct (Nat.eq_dec t0 t) as [E|N]; [exact E|destruct (B2 t0 (Hoth t0 N X))]. }
+      split.
+      { intros Hv'. split; [exact B1|]. intros t0 X. pose proof (Honly t0 X) as ->.
+        destruct X as (c0 & r0 & A1 & A2 & _). rewrite upd_same in A1. injection A1 as <- <-. apply Hv'. apply K2, A2. }
+      split; [intros E; lia|]. intros t0 t0' X X'. rewrite (Honly t0 X), (Honly t0' X'). reflexivity.
+  - (* response *)
+    destruct IH as (I0 & IA & IB & IC & ID); [intros t0 c0 Hi; apply (Hw t0 c0); right; exact Hi|exact Hn|].
+    assert (Hsub : forall t0, PM (HRes t r :: h) (upd P t None) t0 -> PM h P t0 /\ t0 <> t).
+    { intros t0 (c0 & r0 & A1 & A2 & A3 & c' & A4). unfold upd in A1. destruct (Nat.eq_dec t0 t) as [->|N]; [discriminate|].
+      split; [|exact N]. exists c0, r0. split; [exact A1|]. split; [exact A2|]. split; [exact A3|]. exists c'.
+      destruct A4 as [A4|A4]; [discriminate|exact A4]. }
+    split; [apply nounm_upd_none, I0|]. cbn [cnt_succ].
+    destruct (succ r && match last_ev h t with Some (HInv _ c0) => isop c0 | _ => false end) eqn:Cond.
+    + (* the response of the one successful operation *)
+      apply andb_prop in Cond as [Cs Cl].
+      assert (Xt : PM h P t).
+      { pose proof (possF_pend _ _ _ _ _ _ H t) as Y. destruct (last_ev h t) as [[t' c0|? ?]|] eqn:El; try discriminate Cl.
+        destruct Y as [d Hd]. rewrite HP in Hd. injection Hd as <- _.
+        exists c, r. split; [exact HP|]. split; [exact Cl|]. split; [exact Cs|]. exists c.
+        destruct (last_ev_in _ _ _ El) as [Hi Et]. cbn in Et. subst t'. exact Hi. }
+      assert (E0 : cnt_succ h = 0).
+      { destruct (Nat.eq_dec (cnt_succ h) 1) as [E1|N1]; [destruct (IC E1 t Xt)|lia]. }
+      rewrite E0. split; [lia|].
+      assert (Hno : forall t0, ~ PM (HRes t r :: h) (upd P t None) t0).
+      { intros t0 X. destruct (Hsub t0 X) as [X0 N]. apply N. exact (ID t0 t X0 Xt). }
+      split; [intros Hv; destruct (IB Hv) as [_ B2]; destruct (B2 t Xt)|].
+      split; [intros _; exact Hno|]. intros t0 t0' X. destruct (Hno t0 X).
+    + cbn [plus]. split; [exact IA|].
+      split; [intros Hv; destruct (IB Hv) as [B1 B2]; split; [exact B1|intros t0 X; exact (B2 t0 (proj1 (Hsub t0 X)))]|].
+      split; [intros E t0 X; exact (IC E t0 (proj1 (Hsub t0 X)))|].
+      intros t0 t0' X X'. exact (ID t0 t0' (proj1 (Hsub t0 X)) (proj1 (Hsub t0' X'))).
+Qed.
+
+(* A window W of a linearizable history at whose start no anti-operation is
+   pending and in which none is invoked: at most one operation invoked and
+   answered within W reports success. *)
+Theorem window_one a0 (h0 W h4 : list hev) :
+  linearizable spec a0 (h0 ++ W ++ h4) ->
+  (forall t c, pend_call h0 t = Some c -> isanti c = false) ->
+  (forall t c, In (HInv t c) W -> isanti c = false) ->
+  cnt_succ (rev W) <= 1.
+Proof.
+  intros (s & P & Hp) Hpend Hwin. apply poss_possF in Hp.
+  repeat rewrite rev_app_distr in Hp. rewrite <- app_assoc in Hp.
+  apply possF_app in Hp as (s1 & P1 & H01 & _).
+  apply possF_app in H01 as (s0 & P0 & H0 & HW).
+  pose proof (nounm_start _ _ _ _ H0 Hpend) as N0.
+  assert (Hfree : anti_free (rev W)) by (intros t c Hi; apply in_rev in Hi; exact (Hwin t c Hi)).
+  exact (proj1 (proj2 (wcount _ _ _ _ _ HW Hfree N0))).
+Qed.
+
+(* two responses in W that report success and answer operations invoked in W:
+   the count is at least 2 *)
+Lemma cnt_succ_app (x w : list hev) : cnt_succ w <= cnt_succ (x ++ w).
+Proof. induction x as [|[t c|t r] x IH]; cbn; lia. Qed.
+
+Lemma cnt_succ_two (x y z : list hev) tA rA tB rB cA cB :
+  succ rA = true -> succ rB = true ->
+  last_ev z tA = Some (HInv tA cA) -> isop cA = true ->
+  last_ev (y ++ HRes tA rA :: z) tB = Some (HInv tB cB) -> isop cB = true ->
+  2 <= cnt_succ (x ++ HRes tB rB :: y ++ HRes tA rA :: z).
+Proof.
+  intros SA SB LA OA LB OB.
+  pose proof (cnt_succ_app x (HRes tB rB :: y ++ HRes tA rA :: z)) as X1.
+  pose proof (cnt_succ_app y (HRes tA rA :: z)) as X2.
+  cbn [cnt_succ] in X1. rewrite LB, SB, OB in X1. cbn [andb] in X1.
+  cbn [cnt_succ] in X2. rewrite LA, SA, OA in X2. cbn [andb] in X2. lia.
+Qed.
+
+(* ---- sequential histories ---- *)
+Notation op := (nat * Call * Res)%type.
+Definition runs_to (a : St) (S : list op) (a' : St) : Prop := spec_run spec a (calls S) = (a', results S).
+
+Lemma runs_cons a x S a' : runs_to a (x :: S) a' <->
+  snd x = snd (spec a (snd (fst x))) /\ runs_to (fst (spec a (snd (fst x)))) S a'.
+Proof.
+  unfold runs_to. change (calls (x :: S)) with (snd (fst x) :: calls S). change (results (x :: S)) with (snd x :: results S).
+  cbn [spec_run]. destruct (spec a (snd (fst x))) as [a1 r]. cbn [fst snd].
+  destruct (spec_run spec a1 (calls S)) as [a2 rs]. split.
+  - intros E. injection E as -> -> ->. auto.
+  - intros [-> E]. injection E as -> ->. reflexivity.
+Qed.
+
+Lemma runs_app a S1 S2 a' : runs_to a (S1 ++ S2) a' -> exists am, runs_to a S1 am /\ runs_to am S2 a'.
+Proof.
+  revert a. induction S1 as [|x S1 IH]; intros a H.
+  - exists a. split; [reflexivity|exact H].
+  - cbn [app] in H. apply runs_cons in H as [E H]. destruct (IH _ H) as (am & A & B).
+    exists am. split; [apply runs_cons; auto|exact B].
+Qed.
+
+Lemma run_between Sm : forall a a', runs_to a Sm a' -> Phi a ->
+  Phi a' \/ exists z, In z Sm /\ isanti (snd (fst z)) = true /\ succ (snd z) = true.
+Proof.
+  induction Sm as [|x Sm IH]; intros a a' H Hv.
+  - left. unfold runs_to in H. cbn in H. injection H as <-. exact Hv.
+  - apply runs_cons in H as [E H]. destruct (Phi_dec (fst (spec a (snd (fst x))))) as [Hv1|Hv1].
+    + destruct (IH _ _ H Hv1) as [L|(z & Hz & R)]; [auto|]. right. exists z. split; [right; exact Hz|exact R].
+    + right. exists x. destruct (K4 a (snd (fst x)) Hv Hv1) as [A B]. split; [left; reflexivity|]. split; [exact A|]. rewrite E. exact B.
+Qed.
+
+(* in a legal sequential history, an operation y that reports success is
+   separated from every earlier operation x by an anti-operation that reports
+   success *)
+Theorem seq_between a0 (S : list op) a Sa x Sm y Sb :
+  spec_run spec a0 (calls S) = (a, results S) -> S = Sa ++ x :: Sm ++ y :: Sb ->
+  isop (snd (fst x)) = true -> isop (snd (fst y)) = true -> succ (snd y) = true ->
+  exists z, In z Sm /\ isanti (snd (fst z)) = true /\ succ (snd z) = true.
+Proof.
+  intros H -> Hx Hy Hs. apply runs_app in H as (a1 & _ & H). apply runs_cons in H as [_ H].
+  apply runs_app in H as (a2 & Hm & H). apply runs_cons in H as [Ey _].
+  destruct (run_between Sm _ _ Hm (K2 a1 _ Hx)) as [Hv|Z]; [|exact Z].
+  exfalso. rewrite Ey, (K3 a2 _ Hy Hv) in Hs. discriminate.
+Qed.
+End Window.
